@@ -84,17 +84,63 @@ class SimClock:
             self.jumps += 1
 
     def install(self):
-        import OpenPinch.utils.export as ex
+        """Put the simulated clock behind every wall-clock name the library's modules hold: `datetime.datetime`,
+        `datetime.date`, the `datetime` / `time` modules themselves, and functions imported from `time`."""
+        import sys
+        import time as _time
+        import types
 
         clock = self
+
+        def _now():
+            clock.reads += 1
+            return _dt.datetime.fromtimestamp(clock.now_s, tz=_dt.timezone.utc).replace(tzinfo=None)
 
         class _DT(_dt.datetime):
             @classmethod
             def now(cls, tz=None):
-                clock.reads += 1
-                return _dt.datetime.fromtimestamp(clock.now_s, tz=_dt.timezone.utc).replace(tzinfo=None)
+                return _now()
 
-        ex.datetime = _DT
+            @classmethod
+            def utcnow(cls):
+                return _now()
+
+            @classmethod
+            def today(cls):
+                return _now()
+
+        class _D(_dt.date):
+            @classmethod
+            def today(cls):
+                return _now().date()
+
+        dt_proxy = types.SimpleNamespace(**{k: getattr(_dt, k) for k in dir(_dt) if not k.startswith("__")})
+        dt_proxy.datetime, dt_proxy.date = _DT, _D
+
+        def _sim_time():
+            clock.reads += 1
+            return clock.now_s
+
+        time_proxy = types.SimpleNamespace(**{k: getattr(_time, k) for k in dir(_time) if not k.startswith("__")})
+        time_proxy.time = _sim_time
+        time_proxy.time_ns = lambda: int(_sim_time() * 1e9)
+        time_proxy.localtime = lambda *a: _time.gmtime(_sim_time()) if not a else _time.localtime(*a)
+        time_proxy.gmtime = lambda *a: _time.gmtime(_sim_time()) if not a else _time.gmtime(*a)
+        time_proxy.strftime = lambda fmt, t=None: _time.strftime(fmt, t if t is not None else _time.gmtime(_sim_time()))
+        for mname, mod in list(sys.modules.items()):
+            if mod is None or not (mname == "OpenPinch" or mname.startswith("OpenPinch.")):
+                continue
+            for name, val in list(vars(mod).items()):
+                if val is _dt.datetime:
+                    setattr(mod, name, _DT)
+                elif val is _dt.date:
+                    setattr(mod, name, _D)
+                elif val is _dt:
+                    setattr(mod, name, dt_proxy)
+                elif val is _time:
+                    setattr(mod, name, time_proxy)
+                elif val is _time.time:
+                    setattr(mod, name, _sim_time)
 
     @property
     def span(self):
